@@ -124,6 +124,13 @@ def _mol(ctx, case):
     if _bondset(els, X) != {frozenset((b.GetBeginAtomIdx(), b.GetEndAtomIdx())) for b in m.GetBonds()}:
         ctx.count("skipped:embedding-with-unphysical-contacts")
         return
+    # input sanity: unrelaxed ETKDG conformers occasionally contain a flattened sp3 centre (all four neighbours
+    # within 1 A of a common plane); such a conformer is not a 3D shape of this molecule
+    for a in m.GetAtoms():
+        if a.GetDegree() == 4 and a.GetHybridization() == Chem.HybridizationType.SP3:
+            if geom._max_plane_dist(X, [n.GetIdx() for n in a.GetNeighbors()]) < 1.2:
+                ctx.count("skipped:embedding-with-flattened-sp3-centre")
+                return
     ph = _classify(m)
     fam = "a1" if not ph else "a2"
     ctx.count(f"{fam}_molecules")
